@@ -4,6 +4,7 @@ package engine
 
 import (
 	"bufio"
+	"bytes"
 	"encoding/json"
 	"flag"
 	"fmt"
@@ -78,11 +79,21 @@ type Check struct {
 	DeadlineT  time.Duration
 	MinStates  int64
 	WorkerJobs int // recycle worker after this many jobs (0 = never)
+	// Race, if set, is the free-running pass: the same operations as the scheduled harnesses on
+	// real goroutines with pass-through shims, run in a binary built with -race. It guards the
+	// one assumption of the cooperative scheduler (every shared access goes through a hooked
+	// synchronisation operation); it decides nothing by itself.
+	Race func(tier string, r *Result)
 }
 
 var registry = map[string]*Check{}
 
 func Register(c *Check) { registry[c.ID] = c }
+
+var races = map[string]func(string, *Result){}
+
+// AddRace attaches the free-running pass of a check (resolved in Main, so init order does not matter).
+func AddRace(id string, f func(tier string, r *Result)) { races[id] = f }
 
 // KnownFinding is an entry of /verif/known_findings.json.
 type KnownFinding struct {
@@ -153,6 +164,7 @@ func Main() {
 	nproc := fs.Int("j", 0, "worker processes")
 	deadlineAt := fs.Int64("deadline", 0, "unix deadline for workers")
 	onlyJob := fs.String("job", "", "run a single job in-process and print the result")
+	raceJob := fs.Bool("racejob", false, "run the free-running pass in-process (binary built with -race)")
 	fs.Parse(os.Args[2:])
 	if t := os.Getenv("VERIF_TIER"); t != "" && !flagSet(fs, "tier") {
 		*tier = t
@@ -162,9 +174,19 @@ func Main() {
 		fmt.Fprintf(os.Stderr, "unknown check %q\n", id)
 		os.Exit(2)
 	}
+	if f := races[id]; f != nil && c.Race == nil {
+		c.Race = f
+	}
 	switch {
 	case *worker:
 		workerLoop(c, *tier, time.Unix(*deadlineAt, 0))
+	case *raceJob:
+		r := &Result{Job: "racepass", Exhaustive: true}
+		if c.Race != nil {
+			c.Race(*tier, r)
+		}
+		b, _ := json.Marshal(r)
+		fmt.Printf("RESULT %s\n", b)
 	case *onlyJob != "":
 		r := c.Run(*onlyJob, *tier, time.Now().Add(time.Hour))
 		b, _ := json.MarshalIndent(r, "", " ")
@@ -244,6 +266,23 @@ func doReplay(c *Check, path string) int {
 		fmt.Printf("replay: running job %q in-process; the recorded violation is that the process dies\n", died.Job)
 		c.Run(died.Job, died.Tier, time.Now().Add(10*time.Minute))
 		fmt.Println("replay: job completed, process did not die")
+		return 0
+	}
+	var rp struct {
+		RacePass string `json:"racepass"`
+	}
+	if json.Unmarshal(rf.Replay, &rp) == nil && rp.RacePass != "" {
+		bin := os.Getenv("VERIF_RACE_BIN")
+		if bin == "" {
+			fmt.Println("replay: the recorded violation comes from the free-running -race pass; run ./check " + c.ID + " again (the report is in the replay file's detail)")
+			return 0
+		}
+		r := runRacePass(c, bin, "quick")
+		if len(r.Violations) > 0 {
+			fmt.Printf("VIOLATION property=%s replay=%s\n  kind=%s key=%s\n  %s\n", c.ID, path, r.Violations[0].Kind, r.Violations[0].Key, firstLines(r.Violations[0].Detail, 40))
+			return 1
+		}
+		fmt.Println("replay: the free-running pass reported nothing this time (it samples schedules)")
 		return 0
 	}
 	v := c.Replay(rf.Replay)
@@ -402,6 +441,12 @@ func orchestrate(c *Check, tier string, nproc int) int {
 		}()
 	}
 	wg.Wait()
+	if c.Race != nil {
+		if bin := os.Getenv("VERIF_RACE_BIN"); bin != "" {
+			jobs = append(jobs, "racepass")
+			results = append(results, runRacePass(c, bin, tier))
+		}
+	}
 	return finish(c, tier, start, jobs, results, harnessErrs)
 }
 
@@ -481,8 +526,8 @@ func finish(c *Check, tier string, start time.Time, jobs []string, results []*Re
 		if v.Kind == "hang" {
 			tries = 2 // each replay waits for the hang timeout, in a subprocess
 		}
-		if v.Kind == "worker-died" {
-			repro = tries // confirmed in isolation by the orchestrator
+		if v.Kind == "worker-died" || v.Kind == "data-race" {
+			repro = tries // confirmed in isolation by the orchestrator / a race report is proof by itself
 		} else if c.Replay != nil {
 			for i := 0; i < tries; i++ {
 				if rv := safeReplay(c, v.Replay, v.Kind == "hang"); rv != nil {
@@ -703,6 +748,80 @@ func runJobIsolated(c *Check, job, tier string) (string, bool) {
 		cmd.Process.Kill()
 		return "timed out after 5 minutes", true
 	}
+}
+
+// runRacePass runs the -race build's free-running pass in a subprocess. Any report of the Go
+// race detector is a true positive (the detector has no false positives), so one report is a
+// violation without further reproduction; the harness bodies of the pass keep their own
+// bookkeeping in per-goroutine or atomic variables.
+func runRacePass(c *Check, bin, tier string) *Result {
+	res := &Result{Job: "racepass", Exhaustive: true}
+	cmd := exec.Command(bin, c.ID, "--tier", tier, "--racejob")
+	cmd.Env = append(os.Environ(), "GORACE=halt_on_error=1 exitcode=66", "GOMAXPROCS=8")
+	var stdout bytes.Buffer
+	tail := &tailWriter{max: 12000}
+	cmd.Stdout = &stdout
+	cmd.Stderr = tail
+	done := make(chan error, 1)
+	if err := cmd.Start(); err != nil {
+		res.Err = "race pass: " + err.Error()
+		return res
+	}
+	go func() { done <- cmd.Wait() }()
+	var werr error
+	select {
+	case werr = <-done:
+	case <-time.After(15 * time.Minute):
+		cmd.Process.Kill()
+		res.Exhaustive = false
+		res.Caps = append(res.Caps, "free-running race pass did not finish within 15 minutes (not counted as a violation)")
+		return res
+	}
+	errText := tail.String()
+	if i := strings.Index(errText, "WARNING: DATA RACE"); i >= 0 {
+		rep := errText[i:]
+		key := "race:" + raceKey(rep)
+		res.Execs, res.States, res.Transitions = 1, 2, 1
+		res.Violations = append(res.Violations, Violation{Property: c.ID, Kind: "data-race", Key: key,
+			Detail: "the Go race detector reports an unsynchronised access in the free-running pass (same operations as the scheduled harness, real goroutines):\n" + firstLines(rep, 40),
+			Job:    "racepass", Replay: mustJSON(map[string]string{"racepass": c.ID})})
+		return res
+	}
+	if werr != nil {
+		if k := crashKey(errText); k != "unknown" {
+			res.Execs, res.States, res.Transitions = 1, 2, 1
+			res.Violations = append(res.Violations, Violation{Property: c.ID, Kind: "worker-died", Key: "crash:" + k,
+				Detail: "the free-running pass crashed:\n" + firstLines(errText, 30), Job: "racepass", Replay: mustJSON(map[string]string{"racepass": c.ID})})
+			return res
+		}
+		res.Err = "race pass failed: " + werr.Error() + "\n" + firstLines(errText, 20)
+		return res
+	}
+	for _, l := range strings.Split(stdout.String(), "\n") {
+		if strings.HasPrefix(l, "RESULT ") {
+			var r Result
+			if json.Unmarshal([]byte(l[7:]), &r) == nil {
+				r.Job = "racepass"
+				return &r
+			}
+		}
+	}
+	res.Err = "race pass printed no result"
+	return res
+}
+
+// raceKey names the first repository function in a race report.
+func raceKey(rep string) string {
+	for _, l := range strings.Split(rep, "\n") {
+		l = strings.TrimSpace(l)
+		if strings.HasPrefix(l, "github.com/brewlin/net-protocol/") {
+			if i := strings.LastIndex(l, "("); i > 0 {
+				l = l[:i]
+			}
+			return strings.TrimPrefix(l, "github.com/brewlin/net-protocol/")
+		}
+	}
+	return "unknown"
 }
 
 // crashKey extracts a stable classifier from a crash message (first fatal/panic line).
